@@ -193,23 +193,42 @@ Proof.
 Qed.
 
 (* take exactly n elements or fail: the model of stream.read(n) with a length check *)
-Definition take (n : nat) (bs : list Z) : option (list Z * list Z) :=
-  if (n <=? length bs)%nat then Some (firstn n bs, skipn n bs) else None.
+(* walks n elements only (the closed form below, [take_unfold], measured the whole remainder on every
+   read, which made the extracted models quadratic on long tables) *)
+Fixpoint take (n : nat) (bs : list Z) : option (list Z * list Z) :=
+  match n with
+  | O => Some ([], bs)
+  | S k => match bs with
+           | [] => None
+           | b :: r => match take k r with
+                       | Some (a, t) => Some (b :: a, t)
+                       | None => None
+                       end
+           end
+  end.
+
+Lemma take_unfold (n : nat) (bs : list Z) :
+  take n bs = if (n <=? length bs)%nat then Some (firstn n bs, skipn n bs) else None.
+Proof.
+  revert bs. induction n as [|k IH]; intros bs; [reflexivity|].
+  destruct bs as [|b r]; [reflexivity|].
+  cbn [take length firstn skipn Nat.leb]. rewrite IH. destruct (k <=? length r)%nat; reflexivity.
+Qed.
 
 Lemma take_app (a t : list Z) : take (length a) (a ++ t) = Some (a, t).
 Proof.
-  unfold take. rewrite app_length.
+  rewrite take_unfold. rewrite app_length.
   destruct (Nat.leb_spec (length a) (length a + length t)); [|lia].
   rewrite firstn_app, firstn_all, Nat.sub_diag, skipn_app, skipn_all, Nat.sub_diag.
   cbn. rewrite app_nil_r. reflexivity.
 Qed.
 
 Lemma take_short n (bs : list Z) : (length bs < n)%nat -> take n bs = None.
-Proof. intros H. unfold take. destruct (Nat.leb_spec n (length bs)); auto; lia. Qed.
+Proof. intros H. rewrite take_unfold. destruct (Nat.leb_spec n (length bs)); auto; lia. Qed.
 
 Lemma take_some n bs a t : take n bs = Some (a, t) -> bs = a ++ t /\ length a = n.
 Proof.
-  unfold take. destruct (Nat.leb_spec n (length bs)) as [H|H]; [|discriminate].
+  rewrite take_unfold. destruct (Nat.leb_spec n (length bs)) as [H|H]; [|discriminate].
   intros E. inversion E; subst. split.
   - symmetry. apply firstn_skipn.
   - apply firstn_length_le. auto.
